@@ -50,6 +50,8 @@ class HEX(BinFormat):
             elif l.HEXcode == StartLinearAddress:
                 self._entrypoint = self.entrypoint = l.eip
             self.L.append(l)
+        if len(self.L) == 0:
+            raise HEXError("no record found")
         self.__lines = None
         self.__dataio = None
 
